@@ -7,6 +7,7 @@ from props import symgen as G
 class C09(PropBase):
     pid = "C09"
     coq_dirs = ["Base", "C09"]
+    translators = []
     bins = ["c09"]
     impl_timeout = 600
     rule = ("case = input bytes (run-length encoded) + reader schedule; inputs: grammar-generated files with every record kind, "
